@@ -301,9 +301,11 @@ func stepGraphemeCluster(buf []byte, state int) ([]byte, int, int, int, bool) {
 	}
 	width := boundaries >> uniseg.ShiftWidth
 	consumed := len(buf) - len(rest)
-	if len(rest) == 0 {
+	if len(rest) == 0 || !utf8.FullRune(rest) {
 		// At the end of the input uniseg's state describes the last character
-		// instead of the next one; whatever arrives later is measured afresh.
+		// instead of the next one, and before the first bytes of a character that
+		// is still incomplete it describes those bytes as an invalid character;
+		// whatever arrives later is measured afresh.
 		newState = -1
 	}
 	return cluster, consumed, width, newState, true
